@@ -69,6 +69,9 @@ class Lock:
         self.f.close()
 
 
+EXT_OFFSET = 1000000
+
+
 def theorems_of(pid):
     path = os.path.join(LEAN, "QuickAdd", "Props", pid + ".lean")
     if not os.path.exists(path):
@@ -77,6 +80,13 @@ def theorems_of(pid):
     src = open(path, encoding="utf-8").read()
     for m in re.finditer(r"^theorem\s+([A-Za-z0-9_'.]+)", src, re.M):
         names.append((m.group(1), src[:m.start()].count("\n") + 1))
+    # optional second module of the same namespace (theorems that need lemma files which themselves build on Props/<pid>.lean);
+    # its line numbers are offset so that both files share one ordering
+    ext = os.path.join(LEAN, "QuickAdd", "Props", pid + "Ext.lean")
+    if os.path.exists(ext):
+        src = open(ext, encoding="utf-8").read()
+        for m in re.finditer(r"^theorem\s+([A-Za-z0-9_'.]+)", src, re.M):
+            names.append((m.group(1), EXT_OFFSET + src[:m.start()].count("\n") + 1))
     return names, path
 
 
@@ -97,7 +107,9 @@ def build_and_audit(pid):
         if not out["driver_ok"]:
             out["errors"].append("model/driver does not build: " + (b.stdout + b.stderr)[-1500:])
         names, path = theorems_of(pid)
-        b = subprocess.run(["lake", "build", "QuickAdd.Props." + pid], cwd=LEAN, capture_output=True, text=True)
+        has_ext = os.path.exists(os.path.join(LEAN, "QuickAdd", "Props", pid + "Ext.lean"))
+        targets = ["QuickAdd.Props." + pid] + (["QuickAdd.Props." + pid + "Ext"] if has_ext else [])
+        b = subprocess.run(["lake", "build"] + targets, cwd=LEAN, capture_output=True, text=True)
         out["built"] = b.returncode == 0
         failing_lines = set()
         if not out["built"]:
@@ -105,6 +117,8 @@ def build_and_audit(pid):
             for m in re.finditer(r"error: (\S+?):(\d+):(\d+)", txt):
                 if m.group(1).endswith("Props/%s.lean" % pid):
                     failing_lines.add(int(m.group(2)))
+                elif m.group(1).endswith("Props/%sExt.lean" % pid):
+                    failing_lines.add(EXT_OFFSET + int(m.group(2)))
                 else:
                     out["errors"].append("dependency %s does not build" % m.group(1))
             out["errors"].append(txt[-1200:])
@@ -114,7 +128,7 @@ def build_and_audit(pid):
             os.makedirs(os.path.join(LEAN, "Audit"), exist_ok=True)
             af = os.path.join(LEAN, "Audit", pid + ".lean")
             with open(af, "w") as fd:
-                fd.write("import QuickAdd.Props.%s\n" % pid + "".join("#print axioms QuickAdd.%s.%s\n" % (pid, n) for n, _ in names))
+                fd.write("import QuickAdd.Props.%s\n" % pid + ("import QuickAdd.Props.%sExt\n" % pid if has_ext else "") + "".join("#print axioms QuickAdd.%s.%s\n" % (pid, n) for n, _ in names))
             a = subprocess.run(["lake", "env", "lean", af], cwd=LEAN, capture_output=True, text=True)
             cur = None
             txt = a.stdout + a.stderr
